@@ -1,6 +1,8 @@
 CONSTANTS
   Dev = {}
   RecU = {5, 13}
+  TtlU = {0}
+  Styles = {"rfc"}
   MaxC = 1
   Kinds = {"ixfr2"}
   MaxMsgs = 3
